@@ -6,9 +6,6 @@ From ZV Require Import Common.Bytes Common.BytesFacts Data.Consts Data.Base Data
 From Coq Require Import Permutation Lia ZifyBool.
 Open Scope Z_scope.
 
-Lemma NoDup_incl_length_eq {A} (l l' : list A) : NoDup l -> NoDup l' -> (forall x, In x l <-> In x l') -> length l = length l'.
-Proof. intros N N' H. apply Permutation_length, NoDup_Permutation; auto. Qed.
-
 Lemma filter_all {A} (f : A -> bool) l : (forall x, In x l -> f x = true) -> filter f l = l.
 Proof.
   induction l as [|x r IH]; intros H; cbn; [reflexivity|]. rewrite (H x (or_introl eq_refl)), IH; [reflexivity|].
@@ -17,33 +14,6 @@ Qed.
 
 Section ZRead.
   Variable compact : bool.
-
-  Definition entry_of (e : vkey * score) : zikey := (fst (fst e), (snd e, snd (fst e))).
-
-  Lemma index_gen_length clock z v : RepZ compact clock z ->
-    length (filter (fun k : zikey => fst k =? v) (z_index z)) = length (gen_elems v (c_elems (z_c z))).
-  Proof.
-    intros [Rc [A B C]]. symmetry.
-    rewrite <- (map_length entry_of (gen_elems v (c_elems (z_c z)))).
-    apply NoDup_incl_length_eq.
-    - (* entry_of is injective on entries *)
-      assert (NG : NoDup (gen_elems v (c_elems (z_c z)))).
-      { apply NoDup_filter. eapply NoDup_map_inv. exact A. }
-      apply FinFun.Injective_map_NoDup; [|exact NG].
-      intros [[a b] c] [[a' b'] c'] H. unfold entry_of in H. cbn in H. inversion H; reflexivity.
-    - apply NoDup_filter; exact B.
-    - intros [v' [s m]]. rewrite in_map_iff, filter_In. cbn [fst]. split.
-      + intros ([[a b] c] & E & H). unfold entry_of in E. cbn in E. inversion E; subst.
-        apply gen_In in H. cbn in H. destruct H as [H ->]. split; [apply C; exact H|apply Z.eqb_refl].
-      + intros [H E]. apply Z.eqb_eq in E; subst v'. apply C in H. exists ((v, m), s). split; [reflexivity|].
-        apply gen_In. cbn. auto.
-  Qed.
-
-  Lemma index_scan_length clock z v : RepZ compact clock z ->
-    length (index_scan v (z_index z)) = length (gen_elems v (c_elems (z_c z))).
-  Proof.
-    intros R. unfold index_scan. rewrite isort_length, map_length. eapply index_gen_length; exact R.
-  Qed.
 
   Lemma index_scan_In clock z v s m : RepZ compact clock z ->
     (In (s, m) (index_scan v (z_index z)) <-> In ((v, m), s) (c_elems (z_c z))).
@@ -87,7 +57,7 @@ Section ZRead.
     - destruct (rc_meta _ _ _ Rc m E) as (a & b & d).
       set (v := cm_ver m). set (l := index_scan v (z_index z)).
       assert (Len : Z.of_nat (length l) = cm_size m).
-      { unfold l, v. rewrite (index_scan_length clock z (cm_ver m) R). lia. }
+      { unfold l, v. rewrite (index_scan_length compact clock z (cm_ver m) R). lia. }
       exists l, (map fst (scan v (c_elems (z_c z)))). cbn [negb].
       (* zparse_limit size 0 (-1) = (0, size) *)
       assert (PL : zparse_limit (cm_size m) 0 (-1) = (0, cm_size m)).
@@ -112,7 +82,7 @@ Section ZRead.
       assert (max_batch_num <? -1 = false) as -> by reflexivity.
       rewrite FL, limit_unbounded.
       assert (LenM : length (map fst (scan v (c_elems (z_c z)))) = length l).
-      { rewrite map_length, scan_length. unfold l. rewrite (index_scan_length clock z v R). reflexivity. }
+      { rewrite map_length, scan_length. unfold l. rewrite (index_scan_length compact clock z v R). reflexivity. }
       rewrite LenM. assert (max_batch_num <? Z.of_nat (length l) = false) as -> by lia. cbn [andb].
       assert (NDl : NoDup (map snd l)) by (eapply index_scan_members_NoDup; exact R).
       repeat split; auto.
